@@ -127,7 +127,9 @@ def case(ctx, rng, manylegs=False):
         a, b, axa, axb = gen.contractible_pair(sr, rng, sym, ferm, na=ncon + rng.randint(0, 2), nb=ncon + rng.randint(0, 2), ncon=ncon, values=vals, maxd=1, maxc=mc, minc=mc if rng.random() < 0.7 else 2, p_single=0.0, sparsity=rng.choice([0.0, 0.0, 0.2]))
         ctx.count("feature", "many-legs")
     else:
-        a, b, axa, axb = gen.contractible_pair(sr, rng, sym, ferm, maxnd=4 if rng.random() < 0.35 else 3, values=vals, maxd=2)
+        a, b, axa, axb = gen.contractible_pair(sr, rng, sym, ferm, maxnd=4 if rng.random() < 0.35 else 3, values=vals, maxd=2, p_ragged=0.1)
+        if any(dict(a.indices[i].chargemap) != dict(b.indices[j].chargemap) for i, j in zip(axa, axb)):
+            ctx.count("feature", "contracted-legs-with-different-charge-lists")
     na = N(a, [f"c{axa.index(i)}" if i in axa else f"a{i}" for i in range(a.ndim)])
     nb = N(b, [f"c{axb.index(i)}" if i in axb else f"b{i}" for i in range(b.ndim)])
     shared = [f"c{k}" for k in range(len(axa))]
@@ -138,9 +140,11 @@ def case(ctx, rng, manylegs=False):
     ctx.count("symmetry", sym)
     # absolute reference of the direct contraction
     if ferm:
-        exp, lab_exp, _, _, left, right = G.contract(G.from_array(a), G.from_array(b), axa, axb, a_parity_fallback=R.par(sym, a.charge))
+        ra_, rb_ = gen.union_refs(sr, a, b, axa, axb)
+        exp, lab_exp, _, _, left, right = G.contract(G.from_array(a, ra_), G.from_array(b, rb_), axa, axb, a_parity_fallback=R.par(sym, a.charge))
     else:
-        exp = np.tensordot(embed(a), embed(b), axes=(axa, axb))
+        ra_, rb_ = gen.union_refs(sr, a, b, axa, axb)
+        exp = np.tensordot(embed(a, ra_), embed(b, rb_), axes=(axa, axb))
         lab_exp = []
     nz = bool(np.any(exp != 0))
     subs_a = {tuple(s[i] for i in axa) for s in a.blocks}
